@@ -2,11 +2,11 @@
 package main
 
 import (
-	"verif.local/harness/hx"
 	"flag"
 	"fmt"
 	"os"
 	"time"
+	"verif.local/harness/hx"
 
 	"verif.local/harness/props"
 )
